@@ -31,6 +31,20 @@ NASTY = [
 ]
 
 
+def response_like(b):
+    """do the bytes look like a response (or a response batch)?  Only then may a ProtocolError come without a reply"""
+    try:
+        p = json.loads(b.decode('utf-8', 'surrogatepass'))
+    except Exception:
+        return False
+
+    if isinstance(p, list):
+        # an array is a response batch only if every member is an object that reports a result or an error
+        return bool(p) and all(isinstance(x, dict) and ('result' in x or 'error' in x) for x in p)
+    # a single object that names no method can only be a response (however ill-formed)
+    return isinstance(p, dict) and 'method' not in p
+
+
 def session_survives(msgs, pname='v2'):
     """feed the messages to a serving RPCSession, then a valid request: answered, or connection closed?"""
     from aiorpcx import session, jsonrpc
@@ -211,6 +225,9 @@ class C05(Prop):
                 continue
             if 'escape' in o:
                 return f"{o['escape']} escaped receive_message (only ProtocolError may)"
+            if 'protoerr' in o and o['reply'] is None and not response_like(bytes(op[1])):
+                return ('the bytes were not a response (neither an object without a method nor an array of objects reporting results / errors) '
+                        'but the ProtocolError carries no error reply for the peer')
             if 'protoerr' in o and o['reply'] is not None:
                 try:
                     rep = json.loads(bytes(o['reply']).decode())
